@@ -106,7 +106,7 @@ func c08Case(t *rapid.T) {
 	sc := drawCfg(t, cfgOpt{alphaLo: 1e-3, alphaHi: 0.3, collapsing: true, exact: 2})
 	d := drawDomain(t, sc.m, 1<<11)
 	bud := model.NewBudget(gen.Quantum)
-	src := buildSource(t, cl, sc, d, bud, 10, "src")
+	src := buildSource(t, cl, sc, d, bud, 30, "src")
 	if !bud.Fits(src.k.total() + 8) {
 		t.Skip("no room for the receiver's weights in the exactness budget")
 	}
